@@ -65,6 +65,8 @@ def case_text(c, seed):
         s += "indexfree %s %s\n" % (name, fr)
     if c.get("pack_free"):
         s += "packfree %s\n" % c["pack_free"]
+    if c.get("delayed"):
+        s += "delayed\n"
     for f in c.get("finds", []):
         s += "find %s ordered=%d %s\n" % (f["index"], f["ordered"], " ".join("%s=%s" % (n, val_str(v)) for n, v in f["key"]))
     return s + "end\n"
@@ -93,6 +95,8 @@ def parse_replay(path):
             cur["props"].append(p)
         elif t[0] == "sort":
             cur["sort"] = t[1:]
+        elif t[0] == "delayed":
+            cur["delayed"] = True
         elif t[0] == "entry":
             vals = {}
             for kv in t[2:]:
